@@ -6,7 +6,7 @@ import random
 import e2e
 from core import Family, q, unq, run_model, run_impl, cmp_tree
 
-GEN_FILES = ["StateSpaceGlue.v"]
+GEN_FILES = ["StateSpaceGlue.v", "IndexersGen.v"]
 TRUSTED = e2e.TRUSTED + [
     "Model/StateSpace.v (boolean-mask selection in row-major order; any/cumulative ranks/fill value; repeat) is hand-written: tied by family indexers_and_segments",
     "create_filter_mask (productmap of the logical_and-aggregated filter DAG) is covered through the whole-model family state_space_vs_spec and C19's product-map theorem",
